@@ -296,6 +296,35 @@ def main():
     except BaseException as ex:  # noqa
         out["pretokenizer_fields_setup_error"] = repr(ex)
 
+    # ---- a narrow fields= request together with a projection: surface() is what the projection gives with all fields loaded
+    out["narrow_fields_projection_checks"] = 0
+    try:
+        need = {"surface", "pos", "normalized_form"} if cfg.get("pathRewritePlugin") else set()
+        all_proj = ["surface", "normalized", "reading", "dictionary", "dictionary_and_surface", "normalized_and_surface", "normalized_nouns"]
+        for proj in all_proj:
+            full = d.create(mode=SplitMode.C, projection=proj)
+            for fields in ({"pos"}, {"reading_form"}, {"surface"}, {"dictionary_form", "synonym_group_id"}):
+                narrow = d.create(mode=SplitMode.C, fields=set(fields) | need, projection=proj)
+                for case in cases[:8]:
+                    if case.get("kind") == "lookup" or case["expected"] is None or not case["text"]:
+                        continue
+                    try:
+                        a = [m.surface() for m in full.tokenize(case["text"])]
+                        b = [m.surface() for m in narrow.tokenize(case["text"])]
+                    except (KeyboardInterrupt, SystemExit):
+                        raise
+                    except BaseException:  # noqa
+                        out["python_exceptions"] += 1
+                        continue
+                    out["narrow_fields_projection_checks"] += 1
+                    if a != b:
+                        k = next((i for i, (x, y) in enumerate(zip(a, b)) if x != y), min(len(a), len(b)))
+                        mismatch("projection", "create(fields=%r, projection=%r): surface() of morpheme %d is %r, with all fields loaded %r" % (sorted(set(fields) | need), proj, k, b[k:k + 1], a[k:k + 1]), {"text": case["text"]})
+    except (KeyboardInterrupt, SystemExit):
+        raise
+    except BaseException as ex:  # noqa
+        out["narrow_fields_projection_setup_error"] = repr(ex)
+
     # ---- dictionary building through the Python entry points: same bytes as the library's own compiler
     out["py_builds"] = 0
     bpath = os.path.join(sdir, "build.json")
